@@ -31,9 +31,10 @@ def py_files(repo):
 class Origins:
     """flow-insensitive-ish origin analysis of one function: name -> set of root kinds"""
 
-    def __init__(self, fn, registered):
+    def __init__(self, fn, registered, summaries=None, param_tokens=False, private_params=None):
         self.fn = fn
         self.registered = registered      # attribute names registered as parameter/buffer in the class
+        self.summaries = summaries or {}  # callee -> indices of the arguments its result may alias (see alias_summaries)
         self.env = {}
         args = [a.arg for a in fn.args.args + fn.args.kwonlyargs]
         private = fn.name.startswith("_") and not fn.name.startswith("__")
@@ -42,10 +43,26 @@ class Origins:
                 if a.startswith("num_") or a in ("features", "n", "dim"):
                     self.env[a] = {NONTENSOR}
                 else:
-                    # arguments of private helpers are values the library itself produced (network outputs, splits)
-                    self.env[a] = {CALLRES} if private else {ARG}
+                    # arguments of private helpers: what the library's own call sites pass (private_param_origins);
+                    # a private function nobody calls is treated like a public one
+                    pp = (private_params or {}).get(fn.name, {}).get(a) if private else None
+                    self.env[a] = set(pp) if pp else {ARG}
         if fn.args.vararg:
             self.env[fn.args.vararg.arg] = {ARG}
+        if param_tokens:       # summary mode: every parameter is its own root (100 + position, self excluded)
+            for i, a in enumerate(x for x in args if x != "self"):
+                self.env[a] = {100 + i}
+
+    def call_alias(self, key, e):
+        """origins of a call to a library function / method of this class whose result may alias some arguments"""
+        idxs = self.summaries.get(key)
+        if idxs is None:
+            return None
+        out = {CALLRES}
+        for i in idxs:
+            if i < len(e.args):
+                out |= self.of(e.args[i])
+        return out
 
     def of(self, e):
         if isinstance(e, ast.Name):
@@ -80,8 +97,14 @@ class Origins:
                 if isinstance(f.value, ast.Name) and f.value.id in FRESH_MODULES:
                     if f.attr in VIEW_FUNCS and e.args:
                         return self.of(e.args[0])
+                    al = self.call_alias(f.value.id + "." + f.attr, e)
+                    if al is not None:
+                        return al
                     return {FRESH}
                 if isinstance(f.value, ast.Name) and f.value.id == "self":
+                    al = self.call_alias("self." + f.attr, e)
+                    if al is not None:
+                        return al
                     return {CALLRES}            # a method / sub-module of the object
                 if isinstance(f.value, ast.Attribute) and isinstance(f.value.value, ast.Name) and f.value.value.id == "self":
                     if f.attr in VIEW_METHODS:
@@ -96,6 +119,9 @@ class Origins:
                 if f.id in ("int", "float", "len", "range", "list", "tuple", "min", "max", "sum", "zip", "enumerate", "map",
                             "isinstance", "signature", "super"):
                     return {NONTENSOR}
+                al = self.call_alias(f.id, e)
+                if al is not None:
+                    return al
                 return {CALLRES}
             return {CALLRES}
         if isinstance(e, ast.Lambda):
@@ -112,7 +138,71 @@ class Origins:
                 self.assign(t, value_origin)
 
 
+def _return_aliases(fn, registered, summaries):
+    """indices of the parameters (self excluded) that a value returned by fn may alias"""
+    og = Origins(fn, registered, summaries, param_tokens=True)
+    out = set()
+
+    def visit(stmts):
+        for st in stmts:
+            if isinstance(st, ast.Assign):
+                vo = og.of(st.value)
+                for t in st.targets:
+                    if isinstance(t, (ast.Name, ast.Tuple, ast.List)):
+                        # flow-insensitive join: a name keeps every origin it ever had
+                        if isinstance(t, ast.Name):
+                            og.env[t.id] = set(og.env.get(t.id, set())) | set(vo)
+                        else:
+                            for x in t.elts:
+                                if isinstance(x, ast.Name):
+                                    og.env[x.id] = set(og.env.get(x.id, set())) | set(vo)
+            elif isinstance(st, ast.Return) and st.value is not None:
+                vals = st.value.elts if isinstance(st.value, ast.Tuple) else [st.value]
+                for v in vals:
+                    out.update(k - 100 for k in og.of(v) if isinstance(k, int) and k >= 100)
+            elif isinstance(st, ast.If):
+                visit(st.body); visit(st.orelse)
+            elif isinstance(st, (ast.For, ast.While, ast.With, ast.Try)):
+                visit(st.body)
+    visit(fn.body)
+    return out
+
+
+def alias_summaries(tree, module_alias=None, inherited=None):
+    """callee name -> set of argument positions its result may alias.  Module-level functions are keyed by their name
+    (and `<module_alias>.<name>`), methods by `self.<name>`; `self.<attr> = lambda x: x` counts as a method returning its
+    argument.  Two rounds so that helpers calling helpers are resolved."""
+    summ = dict(inherited or {})
+    for _ in range(3):
+        for node in tree.body:
+            if isinstance(node, ast.FunctionDef):
+                r = _return_aliases(node, set(), summ)
+                summ[node.name] = r
+                if module_alias:
+                    summ[module_alias + "." + node.name] = r
+    return summ
+
+
+def class_summaries(cls, summ):
+    out = dict(summ)
+    for node in ast.walk(cls):
+        if isinstance(node, ast.Assign) and isinstance(node.value, ast.Lambda):
+            lam = node.value
+            for t in node.targets:
+                if isinstance(t, ast.Attribute) and isinstance(t.value, ast.Name) and t.value.id == "self":
+                    params = [a.arg for a in lam.args.args]
+                    if isinstance(lam.body, ast.Name) and lam.body.id in params:
+                        out["self." + t.attr] = {params.index(lam.body.id)}
+    reg = registered_attrs(cls)
+    for _ in range(3):
+        for m in cls.body:
+            if isinstance(m, ast.FunctionDef):
+                out["self." + m.name] = _return_aliases(m, reg, out)
+    return out
+
+
 def worst(kinds):
+    kinds = {ARG if (isinstance(k, int) and k >= 100) else k for k in kinds}
     for k in (ARG, SELF_STATE, UNKNOWN, SELF_OTHER, CALLRES, FRESH, NONTENSOR):
         if k in kinds:
             return k
@@ -135,26 +225,110 @@ def registered_attrs(cls):
     return reg
 
 
+def _walk_calls(fn, og, on_call):
+    """run the origin analysis over fn's statements in order, reporting every call `self._name(...)` with the origins of
+    its actual arguments at that point"""
+    def exprs_of(st):
+        if isinstance(st, ast.Assign):
+            return [st.value]
+        if isinstance(st, (ast.AugAssign, ast.Return, ast.Expr)):
+            return [st.value] if st.value is not None else []
+        if isinstance(st, (ast.If, ast.While)):
+            return [st.test]
+        if isinstance(st, ast.For):
+            return [st.iter]
+        return []
+
+    def visit(stmts):
+        for st in stmts:
+            for ex in exprs_of(st):
+                for c in ast.walk(ex):
+                    if isinstance(c, ast.Call) and isinstance(c.func, ast.Attribute) and isinstance(c.func.value, ast.Name) \
+                            and c.func.value.id == "self" and c.func.attr.startswith("_") and not c.func.attr.startswith("__"):
+                        on_call(c.func.attr, [og.of(a) for a in c.args], {k.arg: og.of(k.value) for k in c.keywords if k.arg})
+            if isinstance(st, ast.Assign):
+                vo = og.of(st.value)
+                for t in st.targets:
+                    if isinstance(t, (ast.Name, ast.Tuple, ast.List)):
+                        og.assign(t, vo)
+            elif isinstance(st, ast.If):
+                visit(st.body); visit(st.orelse)
+            elif isinstance(st, (ast.For, ast.While)):
+                if isinstance(st, ast.For):
+                    og.assign(st.target, og.of(st.iter) if not isinstance(st.iter, ast.Call) else {CALLRES})
+                visit(st.body); visit(st.orelse)
+            elif isinstance(st, (ast.With, ast.Try)):
+                visit(st.body)
+    visit(fn.body)
+
+
+def private_param_origins(scoped):
+    """method name -> parameter name -> union of the origins passed at every `self._name(...)` call site in the library
+    (by name: an abstract hook called in a base class and implemented in subclasses shares one entry)"""
+    pp = {}
+    sigs = {}
+    for qn, fn, reg, summ in scoped:
+        if fn.name.startswith("_") and not fn.name.startswith("__"):
+            sigs.setdefault(fn.name, []).append([a.arg for a in fn.args.args if a.arg != "self"])
+    for _ in range(4):
+        new = {}
+        for qn, fn, reg, summ in scoped:
+            og = Origins(fn, reg, summ, private_params=pp)
+
+            def on_call(name, pos, kw):
+                for params in sigs.get(name, []):
+                    d = new.setdefault(name, {})
+                    for i, o in enumerate(pos):
+                        if i < len(params):
+                            d.setdefault(params[i], set()).update(o)
+                    for k, o in kw.items():
+                        d.setdefault(k, set()).update(o)
+            _walk_calls(fn, og, on_call)
+        pp = new
+    return pp
+
+
 def inplace_rows(repo):
     """rows: (file, qualified function, kind, root, guarded_by_training, text)"""
     rows = []
+    tu = ast.parse(open(os.path.join(repo, "nflows/utils/torchutils.py")).read())
+    lib = alias_summaries(tu, "torchutils")
+    lib = {k: v for k, v in lib.items() if k.startswith("torchutils.")}     # only qualified names are visible elsewhere
+    per_file = []
     for rel in py_files(repo):
         tree = ast.parse(open(os.path.join(repo, rel)).read())
+        modsum = alias_summaries(tree, None, lib)
         scopes = []
         for node in tree.body:
             if isinstance(node, ast.FunctionDef):
-                scopes.append((node.name, node, set()))
+                scopes.append((node.name, node, set(), modsum))
             elif isinstance(node, ast.ClassDef):
                 reg = registered_attrs(node)
+                csum = class_summaries(node, modsum)
                 for m in node.body:
                     if isinstance(m, ast.FunctionDef):
-                        scopes.append((node.name + "." + m.name, m, reg))
-        for qn, fn, reg in scopes:
-            og = Origins(fn, reg)
+                        scopes.append((node.name + "." + m.name, m, reg, csum))
+        per_file.append((rel, scopes))
+    pp = private_param_origins([sc for _, scopes in per_file for sc in scopes])
+    for rel, scopes in per_file:
+        for qn, fn, reg, summ in scopes:
+            og = Origins(fn, reg, summ, private_params=pp)
+
+            def embedded_inplace(st, exprs, training):
+                """in-place methods used inside an expression: y = x.add_(1), return x.mul_(2)"""
+                for ex in exprs:
+                    for c in ast.walk(ex):
+                        if isinstance(c, ast.Call) and isinstance(c.func, ast.Attribute) and c.func.attr.endswith("_") \
+                                and not c.func.attr.startswith("__") and not (isinstance(c.func.value, ast.Name) and c.func.value.id == "init"):
+                            inner = c.func.value
+                            while isinstance(inner, ast.Call) and isinstance(inner.func, ast.Attribute):
+                                inner = inner.func.value
+                            rows.append((rel, qn, "inplace-method", worst(og.of(inner)), training, ast.unparse(st)))
 
             def visit(stmts, training):
                 for st in stmts:
                     if isinstance(st, ast.Assign):
+                        embedded_inplace(st, [st.value], training)
                         vo = og.of(st.value)
                         for t in st.targets:
                             if isinstance(t, ast.Subscript):
@@ -163,7 +337,10 @@ def inplace_rows(repo):
                                 rows.append((rel, qn, "data-assign", worst(og.of(t.value)), training, ast.unparse(st)))
                             else:
                                 og.assign(t, vo)
+                    elif isinstance(st, ast.Return) and st.value is not None:
+                        embedded_inplace(st, [st.value], training)
                     elif isinstance(st, ast.AugAssign):
+                        embedded_inplace(st, [st.value], training)
                         tgt = st.target
                         base = tgt.value if isinstance(tgt, ast.Subscript) else tgt
                         rows.append((rel, qn, "augassign", worst(og.of(base)), training, ast.unparse(st)))
